@@ -5,7 +5,7 @@ from __future__ import annotations
 import ast
 import re
 
-from hsa.core import AnalysisError, Repo, Report, body_walk, call_name, dotted, kwarg, last_attr, src
+from hsa.core import find_assign, AnalysisError, Repo, Report, body_walk, call_name, dotted, kwarg, last_attr, src
 from hsa.fold import UNKNOWN, fold_in
 from hsa.rules.abstractions import (
     DIV_FAMILY,
@@ -45,9 +45,17 @@ def r04_1_prefix_agreement(repo: Repo, rep: Report):
     m, fn = repo.fn("solve.is_model_valid")
     rets = [r for r in body_walk(fn) if isinstance(r, ast.Return)]
     lit = None
-    if len(rets) == 1 and isinstance(rets[0].value, ast.Compare) and isinstance(rets[0].value.ops[0], ast.NotIn):
-        lit = fold_in(repo, "solve", rets[0].value.left)
-        ok = isinstance(lit, str) and src(rets[0].value.comparators[0]) == "solver_stdout"
+    val = rets[0].value if len(rets) == 1 else None
+    # `not <local>` / `<local>` with the local bound once to the membership test reads as the test itself
+    neg = False
+    for _ in range(3):
+        if isinstance(val, ast.UnaryOp) and isinstance(val.op, ast.Not):
+            neg, val = not neg, val.operand
+        elif isinstance(val, ast.Name) and len(find_assign(fn, val.id)) == 1:
+            val = find_assign(fn, val.id)[0]
+    if isinstance(val, ast.Compare) and len(val.ops) == 1 and isinstance(val.ops[0], (ast.NotIn, ast.In)) and isinstance(val.ops[0], ast.In) == neg:
+        lit = fold_in(repo, "solve", val.left)
+        ok = isinstance(lit, str) and src(val.comparators[0]) == "solver_stdout"
     else:
         ok = False
     rep.check("R04.1", ok, m, fn, f"is_model_valid: {src(rets[0]) if rets else '?'}", "is_model_valid must be `<literal> not in solver_stdout`")
